@@ -365,20 +365,33 @@ let run_sched kvs ikvs =
       | [t; e; m; a; b] -> Some { th = int_of_string t; evk = int_of_string e; mu = int_of_string m; a = int_of_string a; b = int_of_string b }
       | _ -> None) (String.split_on_char ',' (get_or ikvs "trace" "")) in
   let nthreads_of trace = List.fold_left (fun m e -> max m (e.th + 1)) (nw + 2) trace in
+  let last_foreign = ref "" in
   let attempt trace =
+  let foreign_unlock = ref "" in
   let nthreads = nthreads_of trace in
     (* programs reconstructed from the case (call structure of the writers) and the trace (frames per message; for the
        pinger, the closer and the library's own goroutines: one call per acquisition of writeFrameMu) *)
     let progs = Array.make nthreads [] in
     for t = 0 to nthreads - 1 do
       if t < nw then begin
-        let fr = List.filter_map (fun e -> if e.th = t && e.evk = 5 then Some (e.a, e.b) else None) trace in
-        let calls = ref [] and cur = ref 0 in
-        List.iter (fun (opc, fin) -> if opc <= 2 then (if fin = 1 then (calls := CMsg (nat_of_int !cur, O) :: !calls; cur := 0) else incr cur)) fr;
-        if !cur > 0 then calls := CMsg (nat_of_int (!cur + 1), O) :: !calls;   (* a message cut off before its final frame *)
-        let l = List.rev !calls in
-        let extra = max 0 (List.length (List.nth plans t) - List.length l) in
-        progs.(t) <- l @ List.init extra (fun _ -> CMsg (O, O))
+        (* one call per acquisition of msgWriter.mu (event Lock, mu 1) or per wait for it given up (event GaveUp, mu 1), in the
+         order of the trace; the data frames written after an acquisition belong to that call (k = frames - 1; a message cut off
+         before its final frame expects one frame more) *)
+      let calls = ref [] and cur = ref (-1) and lastfin = ref true in
+      let close_call () =
+        if !cur >= 0 then begin
+          let k = if !cur = 0 then 0 else if !lastfin then !cur - 1 else !cur in
+          calls := CMsg (nat_of_int k, O) :: !calls; cur := -1; lastfin := true
+        end in
+      List.iter (fun e -> if e.th = t then begin
+        if e.evk = 1 && e.mu = 1 then (close_call (); cur := 0)
+        else if e.evk = 9 && e.mu = 1 then (close_call (); calls := CMsg (O, O) :: !calls)
+        else if e.evk = 5 && e.a <= 2 then ((if !cur < 0 then cur := 0); incr cur; lastfin := (e.b = 1))
+      end) trace;
+      close_call ();
+      let l = List.rev !calls in
+      let extra = max 0 (List.length (List.nth plans t) - List.length l) in
+      progs.(t) <- l @ List.init extra (fun _ -> CMsg (O, O))
       end else begin
         let calls = ref [] and pending = ref false and kind = ref (-1) in
         (* a Close frame (or a refused, unidentified frame) by the user's closer is Close; by a goroutine of the library it is the echo of the peer's Close *)
@@ -428,8 +441,21 @@ let run_sched kvs ikvs =
          done;
          if !ok then ignore (stepn t false)
          else begin st := saved; (match step !st EClose with Some s -> st := s | None -> ()) end) in
+    (* a frame whose writer re-arms afterwards (Arm with Background) was written successfully — necessarily before the transport
+       was closed, even if the Closed event is recorded in between (the final select of writeFrame may pick the re-arm although
+       the connection is closed by then): such frames are put on the model's wire before the model closes *)
+    let flush_emits i =
+      for u = 0 to nthreads - 1 do
+        (match phase_of u with
+         | Emit _ ->
+           let j = ref (i + 1) in
+           while !j < Array.length tr_list && tr_list.(!j).th <> u do incr j done;
+           if !j < Array.length tr_list && tr_list.(!j).evk = 6 && tr_list.(!j).a = 1 && tr_list.(!j).b = 0 then ignore (stepn u false)
+         | _ -> ())
+      done in
     let ensure_closed i =
       if not !st.closed && not !closed_consumed then begin
+        flush_emits i;
         let j = ref (i + 1) in
         while !j < Array.length tr_list && tr_list.(!j).evk <> 4 do incr j done;
         if !j < Array.length tr_list then (closed_consumed := true; do_close tr_list.(!j).th)
@@ -459,6 +485,12 @@ let run_sched kvs ikvs =
             ensure_closed i;
             if not (stepn t false) && not (stepn t true) then fail (Printf.sprintf "model-blocks:t%d:lock-frame" t)
           end
+        | 9, 1 -> (* the wait for msgWriter.mu was given up: the call's context ended *)
+          advance t (function WantMsg _ -> true | _ -> false) "giveup-msg";
+          if !err = "" then (match step !st (EGiveUp (nat_of_int t)) with Some s2 -> st := s2 | None -> fail (Printf.sprintf "model-refuses-giveup:t%d:msg" t))
+        | 9, 3 -> (* the wait for writeFrameMu was given up *)
+          advance t (function WantFrame _ -> true | _ -> false) "giveup-frame";
+          if !err = "" then (match step !st (EGiveUp (nat_of_int t)) with Some s2 -> st := s2 | None -> fail (Printf.sprintf "model-refuses-giveup:t%d:frame" t))
         | 6, _ when e.a = 1 && e.b = 0 -> (* writeFrame re-armed with Background: the frame was written completely *)
           (match phase_of t with Emit _ -> ignore (stepn t false) | _ -> ())
         | 6, _ when e.a = 1 && e.b = 1 -> (* writeFrame passed `select { <-closed | writeTimeout <- ctx }`: the model's Check step *)
@@ -487,8 +519,15 @@ let run_sched kvs ikvs =
                         (at the re-check after the acquisition, or while waiting for the frame lock) although the Closed event is
                         still to come in the trace *)
                      ensure_closed i; ignore (stepn t true)
-                   | _ -> ())
-        | 4, _ -> if !closed_consumed then closed_consumed := false else do_close t
+                   | _ ->
+                     (* mu.unlock is not owner-checked: a goroutine that releases msgWriter.mu while ANOTHER goroutine holds it (and the
+                        connection is open) hands a message in progress to the next writer *)
+                     (match !st.msg_mu with
+                      | Some h when int_of_nat h <> t && not !st.closed && t < nw && int_of_nat h < nw
+                                    && (match phase_of (int_of_nat h) with Idle -> false | _ -> true) ->
+                        foreign_unlock := Printf.sprintf "t%d-released-msgWriter.mu-held-by-t%d" t (int_of_nat h)
+                      | _ -> ()))
+        | 4, _ -> if !closed_consumed then closed_consumed := false else (flush_emits i; do_close t)
         | 3, 3 -> (match phase_of t with ForceFrame -> if not (stepn t false) then fail (Printf.sprintf "model-blocks:t%d:forcelock-frame" t) | _ -> ())
         | _ -> ()
       end) trace;
@@ -496,14 +535,21 @@ let run_sched kvs ikvs =
     let mframes = List.filter_map (fun (e : wev) -> if int_of_nat e.e_part = 0 then Some (int_of_nat e.e_tid, (match e.e_kind with FData -> 0 | FPing -> 9 | FClose -> 8), if e.e_fin then 1 else 0) else None) !st.wire in
     let tr_arr = Array.of_list trace in
     let first_closed = (let r = ref max_int in Array.iteri (fun i e -> if e.evk = 4 && i < !r then r := i) tr_arr; !r) in
+    (* a frame the library started counts as written iff its writer re-arms with Background afterwards (the success path of
+       writeFrame), wherever the Closed event falls *)
     let unlocked_before_close i t =
-      let r = ref false and j = ref (i + 1) in
-      while !j < Array.length tr_arr && not !r && !j < first_closed do
-        (let e = tr_arr.(!j) in if e.th = t && ((e.evk = 2 && e.mu = 3) || (e.evk = 6 && e.a = 1 && e.b = 0)) then r := true); incr j
+      let r = ref false and stop = ref false and j = ref (i + 1) in
+      while !j < Array.length tr_arr && not !r && not !stop do
+        (let e = tr_arr.(!j) in
+         if e.th = t then begin
+           if e.evk = 6 && e.a = 1 && e.b = 0 then r := true
+           else if e.evk = 2 && e.mu = 3 then stop := true
+         end); incr j
       done; !r in
     let iframes = List.concat (List.mapi (fun i e ->
       if e.evk = 5 && unlocked_before_close i e.th then [(e.th, (if e.a = 8 then 8 else if e.a >= 9 then 9 else 0), (if e.a >= 8 then 1 else e.b))] else []) trace) in
     if !err = "" && mframes <> iframes then fail (Printf.sprintf "frame-order-differs:model=%d:impl=%d" (List.length mframes) (List.length iframes));
+    if !foreign_unlock <> "" then last_foreign := !foreign_unlock;
     (!err, !st, List.length iframes) in
   (* The Closed event is recorded AFTER close(c.closed) took effect: other goroutines may have acted on the closed connection
      (given a lock back, failed a write) before it appears in the trace.  The trace is accepted when it is an execution of the
@@ -533,6 +579,7 @@ let run_sched kvs ikvs =
   let crstarts = List.length (List.filter (fun e -> e.evk = 7 && e.a = 1) trace) and crexits = List.length (List.filter (fun e -> e.evk = 8 && e.a = 1) trace)
   and tlexits = List.length (List.filter (fun e -> e.evk = 8 && e.a = 0) trace) in
   let gor = if tlexits = 1 && crstarts = crexits then "ok" else Printf.sprintf "leak:timeoutLoop-exits=%d:closeRead=%d/%d" tlexits crexits crstarts in
+  let verdict = if verdict = "ok" && !last_foreign <> "" && !err = "" then "violation:foreign-unlock(" ^ !last_foreign ^ ")" else verdict in
   Printf.sprintf "judge=%s replay=%s modelprops=%s frames=%d goroutines=%s moved=%d" verdict (if !err = "" then "ok" else !err) props niframes gor moved
 
 (* ---- suite ping (C15, matching) ---- *)
@@ -680,6 +727,10 @@ let run_life kvs _ =
     | "ping-then-cancel" -> ([(0, [LCloseRead (nat_of_int 9, nat_of_int 100); wr 1; wr 2]); (100, [])], [RunCall 0; RunCall 100] @ sect 0 @ [Cancel 1; TL] @ sect 0, [(0, 1); (0, 1); (0, 1)], 0)
     | "cancel-during-read" | "deadline-during-read" -> ([0, [rd 1]], [RunCall 0; Cancel 1; TL; RunCall 0], [(0, 1)], 0)
     | "cancel-stall" -> ([0, [rd 2; rd 2; rd 1]], sect 0 @ sect 0 @ [RunCall 0; Cancel 1; TL; RunCall 0], [(0, 2); (0, 1)], 0)
+    | "stream-write-pong-between-then-cancel" ->
+      ([(0, [LCloseRead (nat_of_int 9, nat_of_int 100); wr 1; wr 1; wr 1; wr 2]); (100, [])], [RunCall 0; RunCall 100] @ sect 0 @ sect 0 @ sect 0 @ [Cancel 1; TL] @ sect 0, [(0, 1); (0, 1); (0, 2); (0, 1)], 0)
+    | "cancel-during-stream-write" ->
+      ([(0, [LCloseRead (nat_of_int 9, nat_of_int 100); wr 1; wr 1]); (100, [])], [RunCall 0; RunCall 100] @ sect 0 @ [RunCall 0; Cancel 1; TL; RunCall 0; RunCall 100], [(0, 1); (0, 1); (0, 1)], 0)
     | "cancel-during-write" -> ([0, [wr 1]], [RunCall 0; Cancel 1; TL; RunCall 0], [(0, 1)], 0)
     | "closenow-reader-blocked" -> ([(0, [LCloseNow]); (1, [rd 1])], [RunCall 1; RunCall 0; TL; RunCall 0; RunCall 1], [(0, 1); (1, 1)], 0)
     | "closenow-writer-blocked" -> ([(0, [LCloseNow]); (1, [wr 1])], [RunCall 1; RunCall 0; TL; RunCall 0; RunCall 1], [(0, 1); (1, 1)], 0)
@@ -714,7 +765,7 @@ let run_life kvs _ =
       Hashtbl.replace taken t (off + n);
       let grp = List.filteri (fun i _ -> i >= off && i < off + n) all in
       if List.length grp < n then "blocked" else if List.for_all (fun (_, r) -> r = ROk) grp then "ok" else "err") groups in
-    let res = if scen = "ping-then-cancel" then List.tl res else res in   (* the CloseRead call itself is not a recorded step of the harness *)
+    let res = if scen = "ping-then-cancel" || scen = "stream-write-pong-between-then-cancel" || scen = "cancel-during-stream-write" then List.tl res else res in   (* the CloseRead call itself is not a recorded step of the harness *)
     let gor = if !st.l_closed && not !st.l_tl_exited then "timeoutLoop-running" else
         (match !st.l_cr with Some g when !st.l_closed && (!st.l_thr g).lp <> LExited -> "closeRead-running" | _ -> "ok") in
     Printf.sprintf "res=%s closed=%s boundms=%d goroutines=%s" (if res = [] then "any" else String.concat "," res) (if !st.l_closed then "1" else "0") bound gor
